@@ -118,7 +118,9 @@ def skipM (P : Params) (t : Nat) (b : Bytes) : Outcome Nat :=
     short read is a bounds panic. -/
 def decodeFixed (t : TT) (b : Bytes) : Outcome (Val × Bytes) :=
   match t with
-  | .bool | .byte => match rd8 b with
+  | .bool => match rd8 b with   -- `*(*bool)(p) = b[0] == 1` (D16: the byte used to be stored as it is)
+      | some (n, r) => .ok (.sc (if n = 1 then 1 else 0), r) | none => .panic .bounds
+  | .byte => match rd8 b with
       | some (n, r) => .ok (.sc n, r) | none => .panic .bounds
   | .double | .i64 => match rd64 b with
       | some (n, r) => .ok (.sc n, r) | none => .panic .bounds
